@@ -805,6 +805,7 @@ static void skipProgramExpression(lex_state_t * state) {
  */
 int scpiLex_ProgramExpression(lex_state_t * state, scpi_token_t * token) {
     token->ptr = state->pos;
+    token->len = 0;
 
     if (!iseos(state) && ischr(state, '(')) {
         state->pos++;
